@@ -13,9 +13,10 @@ class RLVCommand(NamedTuple):
 class RLVParser:
     @staticmethod
     def is_rlv_message(msg: Message) -> bool:
-        chat: str = msg["ChatData"]["Message"]
+        chat = msg["ChatData"]["Message"]
         chat_type: int = msg["ChatData"]["ChatType"]
-        return chat and chat.startswith("@") and chat_type == ChatType.OWNER
+        # Chat that couldn't be decoded as a string comes back as bytes, which can't be an RLV command
+        return chat_type == ChatType.OWNER and isinstance(chat, str) and chat.startswith("@")
 
     @staticmethod
     def parse_chat(chat: str) -> List[RLVCommand]:
